@@ -177,10 +177,8 @@ View == <<npos, implicit, acl, mode>>
 \* in every reachable list, for every packet, the scan finds the deciding rule of the statement
 ScanIsLowestMatch == \A p \in Packets : ScanDecider(p) = Decider(acl, p)
 
-\* ... hence the scan's verdict is the statement's verdict
-ScanVerdictIsVerdict ==
-    \A p \in Packets :
-        LET d == ScanDecider(p) IN (IF d = Implicit THEN implicit ELSE acl[d].action) = Verdict(acl, implicit, p)
+\* (the verdict is a function of the deciding position - Verdict in Acl.tla - so agreement on the
+\* position is agreement on the verdict; VerdictClause checks the verdict itself on every Check step)
 
 \* the declarative Decider read back against the statement's words: it matches, nothing below it
 \* does; none matches when the implicit rule decides ("free" lists only - a cross-check of Acl.tla)
